@@ -551,7 +551,7 @@ class Memory:
                 elem = self.join_val(va.elem, vb.elem, name + "[]", phis, depth + 1)
             elif va.elem is None:
                 elem = vb.elem
-            segs = va.segs if va.segs == vb.segs else None
+            segs = va.segs if va.segs == vb.segs else _join_segs(va.segs, vb.segs)
             cid = va.id if va.id == vb.id else "join(%s)" % name
             return Cont(va.kind, cid, ln.lin, elem, segs, va.ty)
         if isinstance(va, Ref) and isinstance(vb, Ref):
@@ -577,6 +577,32 @@ class Memory:
         if isinstance(ty, int):
             return Top(ty, "phi(%s)" % name)
         return ("ANY", name)
+
+
+def _seg_shape(segs):
+    import re
+    return re.sub(r"#\d+", "#", repr(segs))
+
+
+def _join_segs(a, b):
+    """Join of two segment sequences of a byte buffer: when one is the other plus a tail, the tail becomes a
+    repetition ("rep", tail) = zero or more copies (buffers filled in loops); anything else is unknown."""
+    if a is None or b is None:
+        return None
+    if len(a) > len(b):
+        a, b = b, a
+    if b[:len(a)] != a:
+        return None
+    extra = b[len(a):]
+    if not extra:
+        return a
+    if a and a[-1][0] == "rep":
+        # a second, different tail after a repetition: give up (keeps the join a finite-height widening).
+        # Tails are compared up to the numbering of the symbols created afresh in each iteration.
+        return a if _seg_shape(a[-1][1]) == _seg_shape(extra) else None
+    if len(extra) == 1 and extra[0][0] == "rep":
+        return b
+    return a + (("rep", extra),)
 
 
 def _li(l, is_len=False):
